@@ -27,8 +27,8 @@ from functools import partial
 from . import cpu_count, get_context
 from . import util
 from .common import (
-    TERM_SIGNAL, human_status, pickle_loads, reset_signals, restart_state,
-    _should_have_exited,
+    TERM_SIGNAL, human_status, maybe_setsignal, pickle_loads, reset_signals,
+    restart_state, _should_have_exited,
 )
 from .compat import get_errno, mem_rss, send_offset
 from .einfo import ExceptionInfo
@@ -318,7 +318,15 @@ class Worker:
 
         if sys.platform != 'win32':
             try:
+                # The parent answers the death notice with the termination
+                # signal.  After a first such signal its disposition is the
+                # default action, so it must not land while the result
+                # queue's write lock is still held.
+                prev = signal.getsignal(TERM_SIGNAL)
+                maybe_setsignal(TERM_SIGNAL, signal.SIG_IGN)
                 self.outq.put((DEATH, (pid, exitcode)))
+                if prev is not None:
+                    maybe_setsignal(TERM_SIGNAL, prev)
                 time.sleep(1)
             finally:
                 os._exit(exitcode)
